@@ -5,7 +5,7 @@
    grid is NOT a theorem here: it is checked on the implementation (exactly on dyadic step models) by harness/props/C19.py. *)
 From Coq Require Import List Arith Bool Reals QArith.
 From RV Require Import Base.RB Base.ExtNum Model.Copula Gen.GenC12Mass Model.MassNd Gen.GenC19Theta Gen.GenC19Spread Model.Credit
-  Proofs.C12_Mass Proofs.C12_Family Proofs.C12_Nonneg Proofs.C11_Copula Proofs.C11_Clayton Proofs.C11_Increasing Proofs.C11_Dep3 Proofs.C19_Credit Proofs.C19_Spread.
+  Proofs.C12_Mass Proofs.C12_Family Proofs.C12_Nonneg Proofs.C11_Copula Proofs.C11_Clayton Proofs.C11_Increasing Proofs.C11_Dep3 Proofs.C19_Credit Proofs.C19_Spread Model.Grid Model.Chain Proofs.C01_Chain Proofs.C19_Rate.
 Import ListNotations.
 Open Scope R_scope.
 
@@ -109,6 +109,25 @@ Proof.
   intros. split. intros; apply implied_pv_roundtrip; assumption. intros M Hr. apply (implied_threshold_props A theta_of le M target rec Hr).
 Qed.
 
+(* the headline clause, d = 1: on an axis whose cell boundary next to the threshold is `bnd` (level 0 of the credit grid:
+   bnd == a; refined grids: bnd < a), the summed rates mass(cell_k) of the states below the threshold equal the mass of [x_0, bnd)
+   = theta(bnd) of the measure truncated to the grid; `mass` is any interval mass additive away from 0 (C01's hypotheses, C09).
+   Full statement: also d = 2, 3 with the copula rectangle masses -- implementation oracle only. *)
+Theorem C19_rate_equals_theta_partial : forall (mid mass : Q -> Q -> Q),
+  (forall x y, (x < y)%Q -> (x < mid x y)%Q /\ (mid x y < y)%Q) -> (forall x, ~ (x == 0)%Q -> (mid x x == x)%Q) ->
+  (forall a b c, (a <= b)%Q -> (b <= c)%Q -> ((c < 0)%Q \/ (0 < a)%Q) -> (mass a c == mass a b + mass b c)%Q) ->
+  (forall a a' b b', (a == a')%Q -> (b == b')%Q -> (mass a b == mass a' b')%Q) ->
+  forall xs m bnd a, incr xs -> ends_ok xs -> (1 <= m)%nat -> (m <= length xs)%nat ->
+  (forall k, (k < m)%nat -> (cell_hi mid xs k < 0)%Q) -> (cell_hi mid xs (m - 1) == bnd)%Q -> (cell_lo mid xs 0 == nthq xs 0)%Q ->
+  (qsum (map (fun k => mass (cell_lo mid xs k) (cell_hi mid xs k)) (seq 0 m)) == mass (nthq xs 0) bnd)%Q /\
+  ((nthq xs 0 <= bnd)%Q -> (bnd <= a)%Q -> (a < 0)%Q ->
+   (qsum (map (fun k => mass (cell_lo mid xs k) (cell_hi mid xs k)) (seq 0 m)) == mass (nthq xs 0) a - mass bnd a)%Q).
+Proof.
+  intros mid mass H1 H2 H3 H4 xs m bnd a Hi He Hm Hl Hneg Hb H0. split.
+  - apply rate_equals_theta_1d; assumption.
+  - intros. apply refined_gap_1d; assumption.
+Qed.
+
 (* non-vacuity: the Q instance of the generated theta evaluates on a dyadic step model (independent copula): the union
    mass is the sum of the two marginal masses below the thresholds *)
 Open Scope Q_scope.
@@ -124,4 +143,5 @@ Print Assumptions C19_monotone.
 Print Assumptions C19_monotone_modelled.
 Print Assumptions C19_spread_maps.
 Print Assumptions C19_implied_quantities.
+Print Assumptions C19_rate_equals_theta_partial.
 Print Assumptions C19_nonvacuous.
